@@ -10,7 +10,7 @@ A unit file is C text with `#!` header lines and `//@` directives that pull text
 
   //@ include <file under /verif/specs>
   //@ struct <relpath> <name> [as <cname>]
-  //@ enum <relpath> <name> [as <cname>]
+  //@ enum <relpath> <name> [as <cname>] [nth <k>] [prefix <P>]
   //@ init <relpath> <name>  [then optional `rule:` lines and `//@ endinit`]   (needs endinit only if rules given)
   //@ func <relpath> <Qualified::name> [match "<text>"] [nth <k>]
       sig: <C signature>
@@ -199,7 +199,9 @@ def _process_func(u, header_line, lines, mutate=None):
         elif ln.startswith('post:'):
             post.append(ln[5:].strip())
         elif ln.startswith('mutant:'):
-            u.mutants.append((qual + '\x00' + (match or ''),) + _parse_rule(ln[7:]))
+            # `#! skip-mutants: <substr> ...`: mutants of shared (lib) functions this unit does not depend on
+            if not any(sk in qual for sk in u.get('skip-mutants', '').split()):
+                u.mutants.append((qual + '\x00' + (match or ''),) + _parse_rule(ln[7:]))
         elif ln == 'contract:':
             while lines[j].strip() != 'end':
                 contract.append(lines[j].rstrip())
@@ -261,6 +263,9 @@ def _process_func(u, header_line, lines, mutate=None):
     for pat, rep, must in rules:
         b2, n = re.subn(pat, rep, b, flags=re.S)
         if n == 0 and must:
+            if os.environ.get('VERIF_DEBUG_BODY'):
+                with open(os.environ['VERIF_DEBUG_BODY'], 'w') as df:
+                    df.write(b)
             raise cxx.ExtractError('must-fire rule did not fire in %s: %s' % (qual, pat))
         log.hit('U %s' % pat, n)
         b = b2
@@ -312,7 +317,7 @@ def _expand(u, text, depth=0, mutate=None):
             out.append(_lower_struct(cxx.find_struct(t[1], t[2], nth=nth), cname, None, subst))
         elif d.startswith('enum '):
             t = d.split()
-            e = cxx.preprocess(cxx.find_enum(t[1], t[2]))
+            e = cxx.preprocess(cxx.find_enum(t[1], t[2], int(t[t.index('nth') + 1]) if 'nth' in t else 0))
             cname = t[4] if len(t) > 4 and t[3] == 'as' else t[2]
             if 'prefix' in t:
                 pre_ = t[t.index('prefix') + 1]
